@@ -239,6 +239,7 @@ def run_property(prop_id, tier='quick', seed=0, jobs=None):
     obligations, discharged, failed, undecided, crashes = 0, 0, [], [], []
     known_seen = {}
     samples, assumptions, inlined, modelled, sha = [], set(), set(), set(), {}
+    lemma_exec = set()
     slow = []
     solver_time = 0.0
     paths = 0
@@ -261,7 +262,10 @@ def run_property(prop_id, tier='quick', seed=0, jobs=None):
             continue
         paths += r['paths'] if ('@' not in r['name'] or r['name'].split('@')[1].startswith('0/')) else 0
         assumptions |= set(r['assumptions'])
-        inlined |= set(r['inlined'])
+        if r['kind'] == 'lemma':
+            lemma_exec |= set(r['inlined'])      # real functions a client lemma executes: the lemma is their contract
+        else:
+            inlined |= set(r['inlined'])
         modelled |= set(r['modelled'])
         sha.update(r['sha'])
         n_ok = 0
@@ -374,6 +378,7 @@ def run_property(prop_id, tier='quick', seed=0, jobs=None):
             'slowest_obligations': sorted(slow, key=lambda x: -x.get('time_s', 0))[:10],
             'functions_under_contract': per_fn,
             'functions_inlined_without_contract': sorted(inlined),
+            'functions_executed_by_client_lemmas': sorted(lemma_exec),
             'callee_contracts_used_at_call_sites': sorted(modelled),
             'paths': paths, 'solver_time_s': round(solver_time, 3),
             'backends': ['z3 %s (python API)' % _z3v()],
